@@ -142,8 +142,11 @@ def main():
     held = []          # spec["hold"]: the caller keeps every result it got (as a program that goes on working with them does)
 
     def do_calls(calls, sink):
-        for name, x in calls:
+        for call in calls:
+            name, x = call[0], call[1]
             fn = c08fns.FNS[name]
+            if len(call) > 2 and call[2] == "ignore":
+                fn = fn.ignore_result()            # the caller does not want the value (a warm-up call)
             before = len(c08fns.REC.calls)
             try:
                 v = fn(x)
@@ -155,7 +158,7 @@ def main():
                 res = ["raise", type(e).__name__, str(e)[:60].split("\n")[0]]
             ran = c08fns.REC.calls[before:]
             # executions of the called function itself, and of every function (nested calls included), each at most once
-            sink.append(dict(call=[name, x], result=res, execs=sum(1 for c in ran if c == (name, x)),
+            sink.append(dict(call=list(call), result=res, execs=sum(1 for c in ran if c == (name, x)),
                              nested_max=max([ran.count(c) for c in set(ran)] or [0])))
 
     restore = None
